@@ -28,6 +28,29 @@ fn profile() -> ScenarioProfile {
     }
 }
 
+/// Large groups: 24-48 files, nearly all with the same content, so that one group has more than 20
+/// sub-groups (sorting algorithms switch strategy at about that size) with many tied keys.
+fn big_strategy() -> proptest::strategy::BoxedStrategy<DCase> {
+    use proptest::prelude::*;
+    let mut sp = profile();
+    sp.files = (24, 48);
+    sp.hardlinks = 2;
+    dcase_strategy(sp)
+        .prop_map(|mut d| {
+            let mut k = 0;
+            for e in d.tree.entries.iter_mut() {
+                if let Kind::File(c) = &mut e.kind {
+                    k += 1;
+                    if k % 9 != 0 {
+                        *c = Content { class: 0, size: 7, flip: None };
+                    }
+                }
+            }
+            d
+        })
+        .boxed()
+}
+
 #[derive(Clone, Debug)]
 struct Meta {
     id: (u64, u64),
@@ -298,6 +321,9 @@ fn judge(c: &DCase, g: &Grouped, target: &PathBuf) -> Verdict {
     if !(rp.name.is_empty() && rp.path.is_empty() && rp.keep_name.is_empty() && rp.keep_path.is_empty()) {
         classes.push("patterns".into());
     }
+    if droppable_sgs_max > 20 {
+        classes.push("more-than-20-droppable-sub-groups".into());
+    }
     Verdict::Pass { nontrivial, classes }
 }
 
@@ -305,10 +331,11 @@ pub fn check(tier: Tier) -> i32 {
     let ctx = Ctx::new("C08", tier);
     replay_corpus::<DCase, _>(&ctx, run_case);
     drive(&ctx, "main", tier.pick(3000, 50000), || dcase_strategy(profile()), run_case);
+    drive(&ctx, "big-groups", tier.pick(400, 5000), big_strategy, run_case);
     cleanup_process_scratch();
     ctx.finish(
         "exploration",
-        "proptest-generated groups of tiny files (names with regex metacharacters and non-ASCII text, hard-link subsets, 1-3 roots, nesting 0-2) with frequently tied mtimes/atimes set by the harness after `group` (ctime/btime read back with stat); dedupe options: --priority lists of length 0-3 over all 12 values, keep/drop globs built from actual names and directories, n in 1..3 explicit or inherited from `group --rf-over`, --isolate / -H explicit or inherited through the report header (text and JSON). Oracle: reference keep/drop rule (sub-groups: isolate roots in order, file id, singletons; stable sorts from the last priority to the first; forced retention by patterns; top-up to n from the front) vs the set of files a real run changed; separate clauses for keep patterns, drop patterns and sub-group atomicity. Non-trivial = >=2 droppable sub-groups in some group AND (chained priorities with a tie in the first key OR a keep pattern hitting a multi-path sub-group OR a setting inherited from the header).",
+        "proptest-generated groups of tiny files (names with regex metacharacters and non-ASCII text, hard-link subsets, 1-3 roots, nesting 0-2) with frequently tied mtimes/atimes set by the harness after `group` (ctime/btime read back with stat); dedupe options: --priority lists of length 0-3 over all 12 values, keep/drop globs built from actual names and directories, n in 1..3 explicit or inherited from `group --rf-over`, --isolate / -H explicit or inherited through the report header (text and JSON). A second generator produces groups of 20-48 replicas (more than 20 sub-groups, many tied keys). Oracle: reference keep/drop rule (sub-groups: isolate roots in order, file id, singletons; stable sorts from the last priority to the first; forced retention by patterns; top-up to n from the front) vs the set of files a real run changed; separate clauses for keep patterns, drop patterns and sub-group atomicity. Non-trivial = >=2 droppable sub-groups in some group AND (chained priorities with a tie in the first key OR a keep pattern hitting a multi-path sub-group OR a setting inherited from the header).",
         &["how a time/nesting priority ranks a sub-group whose members differ in that key is undocumented: such cases skip the exact comparison (counted)", "glob semantics per the reference matcher (README Path Globbing)"],
     )
 }
